@@ -208,6 +208,12 @@ def run_task(task):
                     rec["smt2_head"] = r["smt2"][:1500]
                     seen_smt += 1
                 out["obligations"].append(rec)
+            # vacuity guard: the assumptions and branch conditions of a path
+            # that carries obligations must be satisfiable together (a
+            # contradictory `requires` would discharge everything); the
+            # witness doubles as an admissible input for a sampled replay
+            if p.ctx.side_obligations and not canary:
+                _cover_and_sample(out, c, inst, pi, p, tier)
         out["functions"] = list(SOURCES.used.values())
         out["call_log"] = {f"{k[0]}:{k[1]}": v for k, v in call_log.items()}
     except EngineSignal as e:
@@ -216,6 +222,83 @@ def run_task(task):
         out["fault"] = traceback.format_exc()
     out["seconds"] = round(time.time() - t0, 3)
     return out
+
+
+def _cover_and_sample(out, c, inst, pi, p, tier):
+    import random
+
+    import z3
+    sv = p.ctx.solver
+    r = sv.check()
+    out["covers"] = out.get("covers", 0) + 1
+    if r == z3.unsat:
+        # the path ended in a contradiction; the question is whether its
+        # *last obligation* was still recorded under a satisfiable premise
+        s2 = z3.Solver()
+        s2.set("timeout", 20000)
+        for cnd in p.ctx.side_obligations[-1]["pc"]:
+            s2.add(cnd)
+        r = s2.check()
+        if r == z3.sat:
+            return
+    if r == z3.unsat:
+        out["undecided"].append(
+            f"path {pi}: vacuous -- the assumptions on this path are "
+            f"contradictory, its {len(p.ctx.side_obligations)} obligation(s) "
+            "hold trivially")
+        return
+    if r != z3.sat:
+        out["cover_unknown"] = out.get("cover_unknown", 0) + 1
+        return
+    if type(c).replay is Contract.replay:
+        return
+    # sampled replay: at most one path per instance (three in the thorough
+    # tier), chosen and diversified reproducibly from VERIF_SEED
+    seed = os.environ.get("VERIF_SEED", "0") or "0"
+    want = 1 if tier != "thorough" else 3
+    if len(out.setdefault("replay_samples", [])) >= want:
+        return
+    rng = random.Random(f"{seed}|{c.name}|{_inst_label(inst)}|{pi}")
+    if pi > 0 and rng.random() < 0.5:
+        return
+    m = sv.model()
+    ints = sorted((d for d in m.decls() if d.arity() == 0
+                   and d.range() == z3.IntSort()
+                   and not d.name().startswith("k!")), key=lambda d: d.name())
+    rng.shuffle(ints)
+    depth = 0
+    for d in ints[:14]:
+        v = rng.choice((0, 1, 2, 2, 3, 3, 4, 5, 7, -1, -2, -3, -5))
+        sv.push()
+        sv.add(d() == v)
+        if sv.check() == z3.sat:
+            depth += 1
+        else:
+            sv.pop()
+    if sv.check() == z3.sat:
+        m = sv.model()
+    for _ in range(depth):
+        sv.pop()
+    # only clauses every obligation of which was *proved* on this path (a
+    # refuted one already has its own replay, or is a listed known finding)
+    not_proved = {o["clause"] for o in out["obligations"]
+                  if o["path"] == pi and o["status"] != solve.PROVED}
+    if not_proved:
+        # (a clause-independent replay would re-report that finding under a
+        # proved clause's name)
+        return
+    considered = {o["clause"] for o in out["obligations"] if o["path"] == pi}
+    seen, clauses = set(), []
+    for ob in p.ctx.side_obligations:
+        if ob["name"] in seen or ob["name"] in not_proved \
+                or ob["name"] not in considered:
+            continue
+        seen.add(ob["name"])
+        info = ob["info"] or {}
+        clauses.append((ob["name"], _jsonable(info.get("info"))))
+    from .solve import _model_dict
+    out["replay_samples"].append(dict(path=pi, model=_model_dict(m),
+                                      clauses=clauses[:40]))
 
 
 def _jsonable(x):
